@@ -2,7 +2,8 @@
 
 Observed: return values of qucumber.utils.unitaries.rotate_psi / rotate_rho / rotate_psi_inner_prod /
 rotate_rho_probs (plus create_dict), on real Positive/ComplexWaveFunction and DensityMatrix objects and on
-explicitly supplied complex psi / Hermitian non-symmetric-complex rho.
+explicitly supplied complex psi / Hermitian as well as non-Hermitian complex rho (seed round 8: every structure of PSI_TAGS /
+RHO_TAGS; no symmetry, positivity or normalisation of an explicit array is assumed by any relation except non-negativity for "psd").
 
 Correspondence: the extracted Coq model (Unitaries.rotate_psi, rotate_rho, rotate_psi_inner_prod,
 rotate_rho_probs, expansions, ut_coeff, lookup / U_X U_Y U_Z; KronIndex.kron_index = the index-level loops)
@@ -24,7 +25,11 @@ import gen
 
 RULE = ("state kinds {ComplexWaveFunction, PositiveWaveFunction (with unitaries= and with no dictionary at all -> create_dict() "
         "fallback), DensityMatrix with random non-zero-bias parameters; "
-        "explicit arbitrary complex psi; explicit Hermitian non-symmetric complex rho (indefinite and PSD)} x "
+        "explicit arbitrary complex psi (Gaussian, site-wise rescaled, real, imaginary, sparse, one-hot, norm >> 1 / << 1: never normalised); "
+        "explicit complex rho: Hermitian (PSD, indefinite) AND without that symmetry (general complex, real non-symmetric, complex symmetric, "
+        "anti-Hermitian, upper / lower triangular, rank-one |a><b|, imaginary, complex diagonal, negative definite -- the diagonal of "
+        "U rho U^dagger is then complex / negative and its real part is demanded), half of the explicit rho of the stream being non-Hermitian; "
+        "every structure runs first as a fixed case through all four functions with include_extras default / False-like / True} x "
         "all 3^n basis strings over XYZ for n<=3 (quick) / n<=4 (thorough), random longer strings n<=6 (thorough: n<=7), strings with "
         "user-added random 2x2 unitaries (QR of complex Gaussians; passed via unitary_dict= or unitaries=, as tensor or "
         "nested list, optionally overriding X or Y [and Z: see Z_OVERRIDE_MODE]); basis given as str / list / numpy row (also a strided, "
@@ -44,7 +49,12 @@ ASSUMPTIONS = ["the fast paths' theorems (C04_inner_prod_fastpath, C04_rho_probs
                "an explicit psi / rho is rotated with whatever state object is handed over (it supplies dictionary and device only): its number of "
                "sites may differ from the array's (red-team C04_3 judged IN scope: the statement does not tie the explicit array to the state's size)",
                "returned tensors that are views of the caller's own arguments (the expanded states of an all-Z basis) are not overwritten in the "
-               "overwrite-and-repeat relation"]
+               "overwrite-and-repeat relation",
+               "explicit non-Hermitian rho (seed round 8, judged IN: the quantifier names non-symmetric complex rho supplied explicitly): rotate_rho_probs "
+               "(both include_extras values, and the value returned next to the extras) is held to Re diag(U rho U^dagger) on every such matrix; "
+               "rotate_rho returned (U rho U^dagger)^dagger on them until the repair 209e65c of /repo (finding F-C04-rotate-rho-adjoint, fixed); its dense "
+               "oracle U rho U^dagger is demanded on every explicit matrix (C04_NONHERM_ROTATE_RHO=skip switches that off for experiments), and theorem "
+               "C04_rotate_rho_is_UrhoUdag no longer carries a Hermiticity hypothesis"]
 # Overriding Z by a non-identity matrix: the sweep (rotate_psi / rotate_rho) uses the overriding matrix, the fast paths
 # (_rotate_basis_state) skip every site whose LETTER is "Z".  In-quantifier failing input on the unchanged tree; the
 # integrator registered it as the OPEN known finding F-C04-z-override (match {"z_overridden": true, "call": "fastpath"}).
@@ -52,6 +62,34 @@ ASSUMPTIONS = ["the fast paths' theorems (C04_inner_prod_fastpath, C04_rho_probs
 # KNOWN-FINDING, every other failure (e.g. of the sweep with an overridden Z) is a violation.  "skip": not generated,
 # counted as skipped_z_override in the evidence.
 Z_OVERRIDE_MODE = os.environ.get("C04_Z_OVERRIDE", "on")        # env override for experiments
+
+# rotate_rho on an explicit rho that is NOT Hermitian (seed round 8 widened the explicit matrices to the non-Hermitian ones the
+# quantifier names): the unchanged tree returns U rho^dagger U^dagger = (U rho U^dagger)^dagger -- the second sweep is applied to
+# cplx.conjugate (= conjugate TRANSPOSE) of U rho -- for EVERY basis, the all-Z one included; for a Hermitian rho the two coincide
+# (theorem C04_rotate_rho_is_UrhoUdag / DESIGN 5 C04 thm 3 carry the hypothesis "rho Hermitian").  Failing input on the unchanged
+# tree: n = 1, basis "Z", rho = [[0, 1], [0, 0]] -> rotate_rho gives [[0, 0], [1, 0]].
+# "on": the dense oracle is demanded; its failures on such inputs carry {"rho_nonhermitian": true, "call": "rotate_rho"} so that
+# the integrator can register an OPEN known finding with exactly that match (or repair /repo, after which "on" is silent).
+# "skip": the oracle is not evaluated on these inputs (counted as skipped_rotate_rho_nonhermitian_oracle) and a NOTE line says so
+# on every run; the correspondence with the model (which transcribes the code: sweep, conjugate transpose, sweep) is evaluated in
+# both modes.  Default "auto": "on" as soon as known_findings.json holds an entry (open or fixed) for C04 whose match names
+# rho_nonhermitian, "skip" until then (the builder of this check cannot register findings).  rotate_rho_probs is NOT affected:
+# Re diag(U rho U^dagger) = Re diag((U rho U^dagger)^dagger), and its oracle is demanded for every explicit matrix.
+# Since the repair 209e65c of /repo (rho_r = conjugate(K(conjugate(K(rho))))) and the matching model change the default is "on".
+NONHERM_ROTATE_RHO_MODE = os.environ.get("C04_NONHERM_ROTATE_RHO", "on")        # env override for experiments
+
+
+def rr_on(ctx):
+    """is rotate_rho's dense oracle demanded on non-Hermitian explicit matrices?"""
+    if NONHERM_ROTATE_RHO_MODE in ("on", "skip"):
+        return NONHERM_ROTATE_RHO_MODE == "on"
+    return any("rho_nonhermitian" in (k.get("match") or {}) for k in (getattr(ctx, "known", None) or []))     # ctx.known: this property's entries
+
+
+def non_hermitian(r):
+    r = np.asarray(r)
+    return bool(np.abs(r - r.conj().T).max() > 1e-12 * max(float(np.abs(r).max()), 1e-300))
+
 
 S2 = math.sqrt(2.0)
 # rows = bras of the +1 / -1 eigenvectors of the Pauli matrices
@@ -480,6 +518,12 @@ def _check_spec(ctx, spec, built):
         # compared with the model only when it has the present layout, as sets keyed by the expanded state
         ok, out = ctx.call("rotate_psi_inner_prod(include_extras)", cfp,
                            lambda: UU.rotate_psi_inner_prod(s, barg, states, unitaries=uarg, include_extras=f_true, **kwp))
+        if ok and isinstance(out, (tuple, list)) and len(out) >= 1 and value_alone(out[0]):
+            # the value handed back next to the extras IS the rotated amplitude of the batch (it feeds the gradients): property oracle,
+            # whatever the layout of the extras
+            gv = cnp(out[0])
+            ctx.require("rotate_psi_inner_prod(include_extras=True)[0] == (U psi)[idx s]", close_c(gv, want[sidx], bnd[sidx]), cfp,
+                        {"include_extras": repr(f_true), "got": cl(gv), "want": cl(want[sidx])})
         if ok and flag != "bool":
             # the flag's encoding does not matter: same result (structure and values) as with the Python constant True
             ok3, out3 = ctx.call("rotate_psi_inner_prod(include_extras=True)", cfp,
@@ -547,12 +591,20 @@ def _check_spec(ctx, spec, built):
         want = U @ rho_np @ U.conj().T
         bnd = aU @ np.abs(rho_np) @ aU.T
         wd, bd = np.real(np.diag(want)), np.diag(bnd)
+        nonherm = kind == "rho" and non_hermitian(rho_np)
+        crr = dict(case, rho_nonhermitian=True, call="rotate_rho") if nonherm else case      # tag for rotate_rho's dense oracle (see NONHERM_ROTATE_RHO_MODE)
+        rr_oracle = not (nonherm and not rr_on(ctx))
+        if nonherm:
+            ctx.count("explicit_rho_non_hermitian")
+            if not rr_oracle:
+                ctx.count("skipped_rotate_rho_nonhermitian_oracle")
         ok, out = ctx.call("rotate_rho", case, lambda: UU.rotate_rho(s, barg, space, unitaries=uarg, **kwr))
         if ok:
             rets.append(out)
             got = cnp(out)
-            ctx.require("rotate_rho == U rho U^dagger", close_c(got, want, bnd), case,
-                        {"got": cl(got) if n <= 2 else "omitted", "maxdiff": float(np.abs(got - want).max()) if got.shape == want.shape else None})
+            if rr_oracle:
+                ctx.require("rotate_rho == U rho U^dagger", close_c(got, want, bnd), crr,
+                            {"got": cl(got) if n <= 2 else "omitted", "maxdiff": float(np.abs(got - want).max()) if got.shape == want.shape else None})
             r = m.call("c04_rotate_rho", userl, lets, cl(rho_np))
             if ctx.agree_exact("rotate_rho accepted by impl and model", True, len(r[0]) == 1, case):
                 mi = from_model_c(r[0][0])
@@ -592,6 +644,10 @@ def _check_spec(ctx, spec, built):
                             {"min": float(got.min())})
         ok, out = ctx.call("rotate_rho_probs(include_extras)", cfp,
                            lambda: UU.rotate_rho_probs(s, barg, states, unitaries=uarg, include_extras=f_true, **kwr))
+        if ok and isinstance(out, (tuple, list)) and len(out) >= 1 and value_alone(out[0]):
+            gP = out[0].detach().cpu().numpy()       # the probabilities handed back next to the extras: property oracle
+            ctx.require("rotate_rho_probs(include_extras=True)[0] == diag(U rho U^dagger)[idx s]", close_c(gP, wd[sidx], bd[sidx]), cfp,
+                        {"include_extras": repr(f_true), "got": gP.tolist(), "want": wd[sidx].tolist()})
         if ok and flag != "bool":
             ok3, out3 = ctx.call("rotate_rho_probs(include_extras=True)", cfp,
                                  lambda: UU.rotate_rho_probs(s, barg, states, unitaries=uarg, include_extras=True, **kwr))
@@ -621,7 +677,8 @@ def _check_spec(ctx, spec, built):
                         tv = (np.outer(ut, ut.conj()) * rho_np[np.ix_(ii, ii)])[np.ix_(om, om)]
                         ti = terms[:, :, b][np.ix_(oi, oi)]
                         ctx.agree("terms Ut(v) conj Ut(v') rho(v,v')", [ti.real, ti.imag], [tv.real, tv.imag], case, scale=l1)
-                ctx.agree("extras: value vs diag(U rho U^dagger)[idx s]", P.detach().cpu().numpy(), wd[sidx], case, scale=l1)
+                gP = P.detach().cpu().numpy()
+                ctx.agree("extras: value vs diag(U rho U^dagger)[idx s]", gP, wd[sidx], case, scale=l1)
             else:
                 ctx.count("extras_layout_not_examined")
         if overwrite(rets, [space, states, full] + list(kwr.values())):
@@ -629,8 +686,9 @@ def _check_spec(ctx, spec, built):
         for rnd in range(2):        # second round: each call right after its OWN result was overwritten
             ok, out = ctx.call("rotate_rho (repeated)", dict(case, history=hist), lambda: UU.rotate_rho(s, barg, space, unitaries=uarg, **kwr))
             if ok:
-                ctx.require("rotate_rho == U rho U^dagger, called again after the caller overwrote the returned tensors", close_c(cnp(out), want, bnd),
-                            dict(case, history=hist), {"maxdiff": float(np.abs(cnp(out) - want).max()) if cnp(out).shape == want.shape else None})
+                if rr_oracle:
+                    ctx.require("rotate_rho == U rho U^dagger, called again after the caller overwrote the returned tensors", close_c(cnp(out), want, bnd),
+                                dict(crr, history=hist), {"maxdiff": float(np.abs(cnp(out) - want).max()) if cnp(out).shape == want.shape else None})
                 overwrite([out], [space, states, full] + list(kwr.values()))
         for rnd in range(2):
             ok, out = ctx.call("rotate_rho_probs (repeated)", dict(cfp, history=hist), lambda: UU.rotate_rho_probs(s, barg, states, unitaries=uarg, **kwr))
@@ -853,9 +911,13 @@ def probe(ctx, s, h, basis, cur, uarg, where, form):
         want = U @ rho_np @ U.conj().T
         bnd = aU @ np.abs(rho_np) @ aU.T
         wd, bd = np.real(np.diag(want)), np.diag(bnd)
+        nonherm = kind == "rho" and non_hermitian(rho_np)
         ok, out = ctx.call("history: rotate_rho", case, lambda: UU.rotate_rho(s, barg, space, unitaries=uarg, **kw))
-        if ok:
-            ctx.require("history: rotate_rho == U rho U^dagger with the dictionary now in force", close_c(cnp(out), want, bnd), case,
+        if ok and nonherm and not rr_on(ctx):
+            ctx.count("skipped_rotate_rho_nonhermitian_oracle")
+        elif ok:
+            ctx.require("history: rotate_rho == U rho U^dagger with the dictionary now in force", close_c(cnp(out), want, bnd),
+                        dict(case, rho_nonhermitian=True, call="rotate_rho") if nonherm else case,
                         {"maxdiff": float(np.abs(cnp(out) - want).max()) if cnp(out).shape == want.shape else None})
         ok, out = ctx.call("history: rotate_rho_probs", case, lambda: UU.rotate_rho_probs(s, barg, states, unitaries=uarg, **kw))
         if ok:
@@ -1089,38 +1151,116 @@ def make_params(ctx, kind, n, nh, na):
     return None
 
 
-def rand_psi(ctx, n, exact=None):
+# Structure of an explicitly supplied array.  The property quantifies over ARBITRARY complex psi and over Hermitian as well as
+# non-symmetric complex rho: a short cut that is an identity only for structured inputs (rho Hermitian / symmetric / real / PSD /
+# trace one; psi real / normalised / nowhere zero) must meet an input without that structure -- in the fixed cases, the exhaustive
+# sweep, the histories and the exact low-precision dtypes alike.
+PSI_TAGS = ["general", "scaled", "real", "imaginary", "sparse", "one_hot", "large_norm", "tiny_norm"]
+RHO_HERMITIAN = ["psd", "hermitian"]
+RHO_GENERAL = ["general", "real_nonsym", "complex_sym", "antiherm", "upper", "lower", "outer", "imaginary", "diag_complex", "neg_def"]
+RHO_TAGS = RHO_HERMITIAN + RHO_GENERAL
+
+
+def shape_psi(rng, z, tag):
+    """z: complex Gaussian-like vector -> the same data with the structure `tag` (entries stay exactly representable when z's are)"""
+    d = len(z)
+    if tag == "real":
+        return z.real + 0j
+    if tag == "imaginary":
+        return 1j * z.real
+    if tag == "sparse":
+        keep = rng.random(d) < 0.5
+        keep[int(rng.integers(0, d))] = True
+        return z * keep
+    if tag == "one_hot":
+        e = np.zeros(d, dtype=complex); k = int(rng.integers(0, d)); e[k] = z[k] if z[k] != 0 else 1 - 2j
+        return e
+    if tag == "large_norm":
+        return z * 1024.0
+    if tag == "tiny_norm":
+        return z / 1024.0
+    return z
+
+
+def shape_rho(rng, g, tag):
+    """g: complex d x d Gaussian-like matrix -> a matrix with the structure `tag`.  Only "psd" is a physical state (non-negative
+    probabilities demanded); "hermitian" has real, possibly negative rotated diagonals; all others are NOT Hermitian: the diagonal of
+    U rho U^dagger is complex and the functions return its real part"""
+    d = g.shape[0]
+    if tag == "psd":
+        return g @ g.conj().T
+    if tag == "hermitian":
+        return g + g.conj().T
+    if tag == "real_nonsym":
+        return g.real + 0j
+    if tag == "complex_sym":
+        return g + g.T
+    if tag == "antiherm":
+        return g - g.conj().T
+    if tag == "upper":
+        return np.triu(g)
+    if tag == "lower":
+        return np.tril(g)
+    if tag == "outer":
+        return np.outer(g[0], g[-1].conj())           # |a><b|, a != b
+    if tag == "imaginary":
+        return 1j * g.real
+    if tag == "diag_complex":
+        return np.diag(np.diag(g))
+    if tag == "neg_def":
+        return -(g @ g.conj().T) - np.eye(d)
+    return g
+
+
+def pick_psi_tag(rng):
+    return str(rng.choice(PSI_TAGS, p=[0.4, 0.18, 0.07, 0.07, 0.07, 0.07, 0.07, 0.07]))
+
+
+def pick_rho_tag(rng):
+    r = rng.random()
+    if r < 0.25:
+        return "psd"
+    if r < 0.45:
+        return "hermitian"
+    if r < 0.70:
+        return "general"
+    return str(rng.choice(RHO_GENERAL[1:]))
+
+
+def rand_psi(ctx, n, exact=None, tag=None):
     rng = ctx.rng
+    tag = tag or pick_psi_tag(rng)
+    ctx.count("explicit_psi:" + tag)
     if exact is not None:       # exactly representable in float16 / float32 (multiples of 1/8) or integers
         q = 1.0 if exact == "int64" else 8.0
         z = (rng.integers(-16, 17, size=2 ** n) + 1j * rng.integers(-16, 17, size=2 ** n)) / q
+        if tag in ("large_norm", "tiny_norm", "scaled"):
+            tag = "general"
+        z = shape_psi(rng, z, tag)
         return [z.real.tolist(), z.imag.tolist()]
     z = rng.normal(size=2 ** n) + 1j * rng.normal(size=2 ** n)
-    if rng.random() < 0.3:
+    if tag == "scaled":
         z *= np.exp(rng.uniform(-3, 3, size=2 ** n))
+    z = shape_psi(rng, z, tag)
     return [z.real.tolist(), z.imag.tolist()]
 
 
-def rand_rho(ctx, n, exact=None):
+def rand_rho(ctx, n, exact=None, tag=None):
     rng = ctx.rng
     d = 2 ** n
-    if exact is not None:
+    tag = tag or pick_rho_tag(rng)
+    ctx.count("explicit_rho:" + tag)
+    if exact is not None:       # small integers (/ 4): sums and products stay exactly representable in float16
         q = 1.0 if exact == "int64" else 4.0
         g = (rng.integers(-3, 4, size=(d, d)) + 1j * rng.integers(-3, 4, size=(d, d)))
-        if rng.random() < 0.5:
-            r, tag = (g @ g.conj().T) / q, "psd"
-        else:
-            r, tag = (g + g.conj().T) / q, "hermitian"
+        r = shape_rho(rng, g, tag) / q
         return [r.real.tolist(), r.imag.tolist()], tag
     g = rng.normal(size=(d, d)) + 1j * rng.normal(size=(d, d))
-    if rng.random() < 0.5:
-        r, tag = g @ g.conj().T, "psd"
-    else:
-        r, tag = g + g.conj().T, "hermitian"
+    r = shape_rho(rng, g, tag)
     return [r.real.tolist(), r.imag.tolist()], tag
 
 
-def base_spec(ctx, kind, n, params_cache, xdtype=None):
+def base_spec(ctx, kind, n, params_cache, xdtype=None, xtag=None):
     rng = ctx.rng
     spec = {"kind": kind, "n": n, "user": {}, "user_form": str(rng.choice(USER_FORMS)),
             "basis_form": str(rng.choice(["str", "list", "ndarray"] + BASIS_VIEWS, p=[0.5, 0.16, 0.16, 0.06, 0.06, 0.06]))}
@@ -1143,9 +1283,10 @@ def base_spec(ctx, kind, n, params_cache, xdtype=None):
         spec["explicit_dtype"] = xd
         ex = None if xd == "double" else xd
         if kind == "psi":
-            spec["psi"] = rand_psi(ctx, n, ex)
+            spec["tag"] = xtag or pick_psi_tag(rng)
+            spec["psi"] = rand_psi(ctx, n, ex, tag=spec["tag"])
         else:
-            spec["rho"], spec["tag"] = rand_rho(ctx, n, ex)
+            spec["rho"], spec["tag"] = rand_rho(ctx, n, ex, tag=xtag)
         # memory layout of the explicit array; number of sites of the state object that comes with it
         spec["layout"] = "contiguous" if rng.random() < 0.5 else str(rng.choice(LAYOUTS[1:]))
         if rng.random() < 0.3:
@@ -1186,6 +1327,33 @@ def fixed_regime_cases(ctx):
     for bf in BASIS_VIEWS:                          # basis rows that are views
         for kind, basis in (("complex", "YXZ"), ("rho", "YX"), ("psi", "XZY")):
             go(kind, basis, basis_form=bf)
+
+
+def fixed_structure_cases(ctx):
+    """always run, before anything random (seed round 8: a reduction of the double sum that is an identity only for a Hermitian
+    rho): every structure of an explicit array -- above all the ones WITHOUT a symmetry -- through all four functions, with
+    include_extras left at its default, given as False in another encoding, and True; bases with one rotated site, with X only,
+    with Y, with a user-added unitary"""
+    def go(kind, basis, tag, user=None, **kw):
+        n = len(basis)
+        spec = plain(base_spec(ctx, kind, n, {}, xdtype=kw.pop("xdtype", "double"), xtag=tag), **kw)
+        if user:
+            spec["user"], _ = rand_user(ctx, n, names=user)
+        spec["basis"] = basis
+        finish(ctx, spec, n)
+    rho_bases = ["XZZ", "ZX", "YX", "XYZ", "Y"]
+    for i, tag in enumerate(RHO_GENERAL + ["hermitian", "psd"]):
+        for j, basis in enumerate(rho_bases if tag == "general" else [rho_bases[i % 5], rho_bases[(i + 2) % 5]]):
+            go("rho", basis, tag, flag=("bool", "int", "numpy")[(i + j) % 3])
+        go("rho", ["Q", "Z", "X"][: 2 + i % 2], tag, user=["Q"], basis_form="list")
+    go("rho", "XZ", "general", xdtype="int64"); go("rho", "ZY", "upper", xdtype="float32"); go("rho", "YX", "lower", xdtype="float16")
+    go("rho", "XX", "general", n_state=3); go("rho", "ZYX", "general", layout="transposed"); go("rho", "XZ", "outer", layout="interleaved")
+    psi_bases = ["XZZ", "ZY", "YX", "XYZ", "X"]
+    for i, tag in enumerate(PSI_TAGS):
+        for j, basis in enumerate(psi_bases if tag == "general" else [psi_bases[i % 5], psi_bases[(i + 2) % 5]]):
+            go("psi", basis, tag, flag=("bool", "int", "numpy")[(i + j) % 3])
+        go("psi", ["Z", "q", "Y"][: 2 + i % 2], tag, user=["q"], basis_form="list")
+    go("psi", "XZ", "sparse", xdtype="int64"); go("psi", "ZYX", "one_hot", xdtype="float16"); go("psi", "YX", "imaginary", xdtype="float32")
 
 
 # ----------------------------------------------------------------------------- beyond the dense oracle: n > 20 sites
@@ -1351,8 +1519,14 @@ def finish(ctx, spec, n):
 def run(ctx):
     rng = ctx.rng
     ctx.torch_seed()
+    if not rr_on(ctx):
+        print("NOTE property=C04 finding on the unchanged tree not yet registered: rotate_rho(rho= explicit NON-Hermitian matrix) returns "
+              "(U rho U^dagger)^dagger (n=1, basis Z, rho=[[0,1],[0,0]] -> [[0,0],[1,0]]); rotate_rho's dense oracle is not demanded on "
+              "non-Hermitian explicit matrices until known_findings.json names match {rho_nonhermitian: true, call: rotate_rho} "
+              "(C04_NONHERM_ROTATE_RHO=on shows the failing input)")
     check_default_dict(ctx)
     check_size_guard(ctx)
+    fixed_structure_cases(ctx)
     fixed_regime_cases(ctx)
     large_cases(ctx)
     fixed_histories(ctx)
@@ -1413,6 +1587,7 @@ def search(ctx, broken, budget_s):
     t0 = time.time()
     n0 = len(ctx.failures)
     check_default_dict(ctx)
+    fixed_structure_cases(ctx)
     fixed_regime_cases(ctx)
     large_cases(ctx)
     fixed_histories(ctx)
@@ -1453,9 +1628,9 @@ def replay(ctx, rec):
     case = f.get("case", {})
     print("replay:", f.get("what"), {k: case.get(k) for k in ("kind", "n", "basis", "call")})
     if case.get("kind") == "history":
-        check_history(ctx, {k: v for k, v in case.items() if k != "failed_at"})
+        check_history(ctx, {k: v for k, v in case.items() if k not in ("failed_at", "call", "rho_nonhermitian")})
     elif "kind" in case:
-        spec = {k: v for k, v in case.items() if k not in ("call", "z_overridden", "history")}
+        spec = {k: v for k, v in case.items() if k not in ("call", "z_overridden", "history", "rho_nonhermitian")}
         (check_large if spec.get("large") else check_spec)(ctx, spec)
     elif case.get("call") == "create_dict":
         check_default_dict(ctx)
